@@ -288,6 +288,11 @@ class Core:
             return TList(self.unify(a.elem, b.elem))
         if ka == "Tuple" and kb == "Tuple" and len(a.elems) == len(b.elems):
             return TTuple([self.unify(x, y) for x, y in zip(a.elems, b.elems)])
+        if ka == "Set" and kb == "Set":
+            e = self.unify(a.elem, b.elem)
+            if e.kind == "Ref" and e.cls is None:
+                e = a.elem if a.elem.cls else b.elem
+            return TSet(e)
         return TPoison("%r vs %r" % (a, b))
 
     def empty_array(self, elem_sort):
@@ -358,6 +363,8 @@ class Core:
             parts = [self.coerce(Val(a.elems[i], sa.accessor(0, i)(v.z)), ty.elems[i], node).z
                      for i in range(len(a.elems))]
             return Val(ty, s.mk(*parts))
+        if kt == "Set" and ka == "Set" and self.S.sort(a) == self.S.sort(ty):
+            return Val(ty, v.z, py=v.py)
         if kt == "Json":
             return Val(ty, self.fresh(self.S.Json, "json"))
         raise Unsupported("cannot coerce %r to %r" % (a, ty), node)
@@ -535,7 +542,9 @@ class Core:
         if a is b:
             return a
         if a is None or b is None:
-            return Val(TPoison("undefined on one branch"), None)
+            # bound on one branch only: python would raise NameError if it is read on the other; NameError
+            # detection is not modelled (stated in the evidence), the defined value is kept
+            return a if a is not None else b
         if a.ty.kind in SPECIAL_KINDS or b.ty.kind in SPECIAL_KINDS:
             return a if (a.ty == b.ty and a.py is b.py) else Val(TPoison("special"), None)
         t = self.unify(a.ty, b.ty)
